@@ -851,6 +851,16 @@ pub fn main(args: &util::Args) {
     if args.rest.first().map(|s| s.as_str()) == Some("show") {
         return run_show(args);
     }
+    if args.rest.first().map(|s| s.as_str()) == Some("dir") {
+        // compile <dir>/main.gom where it is and print outcome + diagnostics
+        let root = PathBuf::from(&args.rest[1]);
+        for (ch, text) in observe_fresh(&root) {
+            if ch == "outcome" || ch == "diagnostics" || ch == "discovery_order" {
+                println!("[{}] {}", ch, text.trim_end());
+            }
+        }
+        return;
+    }
     let quick = args.tier != "thorough";
     let base = util::scratch_dir("c13");
     let mut rng = Rng::new(args.seed);
